@@ -95,6 +95,14 @@ func (p *c01) Run(w *lib.Worker, idx int, r *lib.Rand) lib.Case {
 		formats, regName = altRegistry(), "alternative"
 		renameFormats(r, doc)
 	}
+	swaggerish := 0
+	if idx%40 == 7 {
+		// directed shape: closed objects under a composition, Swagger-flavoured instance members
+		doc, instRaw = closedCompositionPair(r)
+		swaggerish = 1
+	} else if r.P(0.06) {
+		swaggerish = injectSwaggerish(r, instRaw, 0)
+	}
 	st, it := gen.JSON(doc), gen.JSON(instRaw)
 	schema, err1 := model.Parse(st)
 	inst, err2 := model.Parse(it)
@@ -130,6 +138,9 @@ func (p *c01) Run(w *lib.Worker, idx int, r *lib.Rand) lib.Case {
 	c.Tags = append(c.Tags, boolTag("model-valid", want), "registry:"+regName)
 	if regName == "alternative" && mc.Touched["format"] > 0 {
 		c.Tags = append(c.Tags, "format-judged-by-alternative-registry")
+	}
+	if swaggerish > 0 {
+		c.Tags = append(c.Tags, "instance-with-swagger-flavoured-members")
 	}
 	sample := map[string]any{"registry": regName, "schema": string(st), "instance": string(it), "draft4": want, "AgainstSchema": one, "validator": obj}
 	if idx%50000 == 0 {
